@@ -116,6 +116,7 @@ class HashSpec(Spec):
     driver_extra = WRAP
     header_words = ('keys', 'ntabs', 'fail', 'failfrom', 'vsign')
     vsign_every = 2
+    vsign_find = True
     prop = 'C03'
     trusted = ['modelled, not verified: the C statements of src/hash.c and the inline functions of include/cstl/hash.h '
                'are transcribed by hand into HashModel.v (bucket array with per-bucket clean bits, sweep index, pending '
